@@ -246,6 +246,12 @@ def run(tier):
                                        if k not in ('original', 'rebuilt') and not k.startswith('_')}, 2500)
                      if r['kind'] != 'rebuild' else {'label': r['label'], 'failed': cl,
                                                      'code_id': [r['original'].get('code_id'), r['rebuilt'].get('code_id')]})
+    def _corrupt(r):
+        if r['kind'] != 'spec' or len(r['observed']) < 2 or r['raised']:
+            return None
+        r['observed'] = r['observed'][1:]
+        return r
+    common.binding_selftest('c13', 'C13_Data', recs, _corrupt)
     rc = v.finish()
     common.cleanup(work)
     common.write_evidence(
